@@ -271,6 +271,39 @@ def run(outcome, tier, seed):
     run_count_oracle(outcome, tier, seed)
     run_boundary_oracle(outcome, tier, seed)
     run_cli_oracle(outcome, tier, seed)
+    recount_disagreements(outcome)
+
+
+def recount_disagreements(outcome):
+    """The property's own reading on the MessagePack / JSON streams where model and implementation part: an independent reader
+    counts the documents of the input; a translation to JSON that succeeds must write exactly that many lines."""
+    seen = set()
+    for d in list(outcome.disagreements):
+        case = d.get("case", "")
+        hexin, fmt = None, None
+        if case.startswith("MT "):
+            hexin, fmt = case.split(" ")[3], "msgpack"
+        elif d.get("what", "").startswith("JSON -> MessagePack"):
+            hexin, fmt = d.get("input_hex"), "json"
+        if not hexin or hexin in seen or len(seen) >= 40:
+            continue
+        seen.add(hexin)
+        data = bytes.fromhex(hexin) if hexin != "-" else b""
+        try:
+            n = len(gen.read_documents(data, fmt))
+        except Exception:
+            continue        # not a valid stream for the independent reader: no expectation
+        rs = common.harness_batch([{"id": 0, "to": "json", "calls": [{"input": hexin, "from": fmt, "mode": "slice"}]},
+                                   {"id": 1, "to": "json", "calls": [{"input": hexin, "from": fmt, "mode": "reader", "sched": {"kind": "fixed", "n": 3}}]}])
+        for mode, r in zip(("slice", "reader"), rs):
+            res = shared.session_result(r)
+            if res[0] != "ok":
+                continue
+            out = bytes.fromhex(res[2]) if res[2] not in ("-", "") else b""
+            if out.count(b"\n") != n:
+                outcome.oracle_failures.append({"what": "a %s stream of %d documents comes out as %d JSON lines (%s input): documents dropped, merged, "
+                                                        "split or duplicated" % (fmt, n, out.count(b"\n"), mode),
+                                                "from": fmt, "to": "json", "mode": mode, "input_hex": hexin[:2000], "output": out[:300].decode("utf-8", "replace")})
 
 
 def replay(outcome, path):
